@@ -298,6 +298,11 @@ func NewResolver(cfg *config.Config) *Resolver {
 		r.rootKeys = append(r.rootKeys, rr)
 	}
 	r.configuredRootKeys = slices.Clone(r.rootKeys)
+	// What configuration lists is live from here until the first AutoTA run,
+	// which only starts after the middleware is ready and the root has been
+	// primed. A key whose revocation was accepted must not be a trust anchor
+	// in that window either (RFC 5011 §2.1: revocation is permanent).
+	r.rootKeys = withoutRevokedAnchors(r.rootKeys, cfg.Directory)
 
 	// Initialize TCP connection pool if enabled
 	if cfg.TCPKeepalive {
